@@ -11,7 +11,7 @@ display(line, fmt) is what a conformant consumer shows for the line.
 """
 from vf.gen import text as T
 
-UNKNOWN_FAR = ['<x>', '</x>', '<foo>', '<q1>', '<zz y>', '<3', '<>', '< i>']
+UNKNOWN_FAR = ['<x>', '</x>', '<foo>', '<q1>', '<zz y>', '<dfn>', '</foo>', '<em>']
 UNKNOWN_NEAR = ['<cat>', '</cat>', '<big>', '<island>', '<uv>', '<vv>', '<bold>', '<italic>',
                 '<under>', '<center>', '<rubyx>', '<rtl>', '<language>', '<i2>', '<b1>']
 
@@ -159,6 +159,17 @@ def esc(s, fmt, rng):
 
 
 def render(line, fmt, rng):
+    out = _render(line, fmt, rng)
+    if fmt == 'webvtt':
+        # '-->' may not occur in cue text, also not across two segments
+        out = out.replace('-->', '--&gt;')
+    if fmt == 'dfxp':
+        # the CDATA-section-close delimiter may not occur in XML character data
+        out = out.replace(']]>', ']]&gt;')
+    return out
+
+
+def _render(line, fmt, rng):
     out = ''
     for seg in line:
         k = seg[0]
